@@ -45,8 +45,11 @@ def parseWorker (j : Json) : Except String WorkerI := do
   return { name := ← fldStr j "name", pool := ← fldStr j "pool", res := ← parsePairs j "res" }
 
 def parseNode (j : Json) : Except String Node := do
+  let st := match fldStr j "state" with
+    | .ok s => parseState s
+    | .error _ => TState.other
   return { uniq := ← fldStr j "uniq", name := ← fldStr j "name", ts := ← fldInt j "ts",
-           graph := ← fldStr j "graph" }
+           graph := ← fldStr j "graph", state := st }
 
 def parseEdge (j : Json) : Except String (String × String) := do
   let a ← j.getArr?
